@@ -43,9 +43,9 @@ Section BuilderProofs.
       :stringer), or a conversion of it (only with :typecast). *)
   Inductive cast_shape (r : node) (t : ty) : node -> Prop :=
   | CSame : assignable (d_env d) (expr_type r) t = true -> cast_shape r t r
-  | CStringer : o_stringer o = true -> assignable (d_env d) string_ty t = true ->
+  | CStringer : returns_error r = false -> o_stringer o = true -> assignable (d_env d) string_ty t = true ->
                 complies_stringer (d_env d) (expr_type r) = true -> cast_shape r t (NStringer r)
-  | CCast e : o_typecast o = true -> convertible (d_env d) (expr_type r) t = true -> cast_shape r t (NCast r t e).
+  | CCast e : returns_error r = false -> o_typecast o = true -> convertible (d_env d) (expr_type r) t = true -> cast_shape r t (NCast r t e).
 
   Lemma new_typecast_shape t r n :
     new_typecast d t r = Ok (Some n) -> exists e, n = NCast r t e.
@@ -56,7 +56,7 @@ Section BuilderProofs.
     - destruct (get_named (d_env d) i) as [nn|]; [|discriminate].
       destruct (negb (n_has_pkg nn) || str_eqb (n_pkg_path nn) (d_pkg_path d)).
       + intros H. injection H as <-. eauto.
-      + destruct (lookup_name d (n_pkg_path nn)); intros H; injection H as <-; eauto.
+      + destruct (lookup_name d (n_pkg_path nn)) as [pn|]; [destruct (str_eqb pn [46])|]; intros H; injection H as <-; eauto.
   Qed.
 
   Lemma cast_node_shape t r n ev :
@@ -65,6 +65,8 @@ Section BuilderProofs.
     unfold cast_node.
     destruct (assignable (d_env d) (expr_type r) t) eqn:Ea.
     { intros H. apply ret_ok in H as [H _]. injection H as <-. now constructor. }
+    destruct (returns_error r) eqn:Ere.
+    { intros H. apply ret_ok in H as [H _]. discriminate. }
     destruct (o_stringer o && assignable (d_env d) string_ty t && complies_stringer (d_env d) (expr_type r)) eqn:Es.
     { intros H. apply ret_ok in H as [H _]. injection H as <-.
       apply andb_true_iff in Es as [Es Es3]. apply andb_true_iff in Es as [Es1 Es2]. now constructor. }
@@ -120,20 +122,42 @@ Section BuilderProofs.
     apply ret_ok in H as [H _]. now symmetry.
   Qed.
 
+  (** the converter call: its argument comes from the resolved source, which yields no
+      error of its own, fitted to the parameter type; where it is written as &arg
+      (pointer parameter, non-pointer argument fitted to the pointed-to type) the
+      argument is an addressable expression *)
+  Definition conv_arg_ok (c : field_converter) (src arg : node) : Prop :=
+    cast_shape src (fc_arg c) arg \/
+    (is_ptr (fc_arg c) = true /\ cast_shape src (deref_ptr (fc_arg c)) arg /\
+     (is_ptr (expr_type arg) = true \/ addressable arg = true)).
+
   Lemma create_with_converter_shape lhs rhs c a ev :
     create_with_converter d o mpos lhs rhs c = (Ok a, ev) ->
     a = ANoMatch lhs \/
-    exists arg n, a = ASimple lhs (RNode n) (fc_err c) /\ cast_shape (NConv arg c) (expr_type lhs) n.
+    exists src arg n, resolve_expr d (fc_src c) (node_root rhs) = Some src /\ returns_error src = false /\
+      conv_arg_ok c src arg /\
+      a = ASimple lhs (RNode n) (fc_err c) /\ cast_shape (NConv arg c) (expr_type lhs) n.
   Proof.
     unfold create_with_converter. intros H.
     apply rbind_ok in H as (cn & e1 & e2 & Hcn & Hk & _).
     destruct cn as [n|].
     - apply ret_ok in Hk as [<- _]. right.
       destruct (resolve_expr d (fc_src c) (node_root rhs)) as [rn|]; [|apply ret_ok in Hcn as [Hcn _]; discriminate].
-      apply rbind_ok in Hcn as (a1 & e3 & e4 & _ & Hcn & _).
-      apply rbind_ok in Hcn as (arg & e5 & e6 & _ & Hcn & _).
+      destruct (returns_error rn) eqn:Ere; [apply ret_ok in Hcn as [Hcn _]; discriminate|].
+      apply rbind_ok in Hcn as (a1 & e3 & e4 & Ha1 & Hcn & _).
+      apply rbind_ok in Hcn as (arg & e5 & e6 & Harg & Hcn & _).
       destruct arg as [arg|]; [|apply ret_ok in Hcn as [Hcn _]; discriminate].
-      exists arg, n. split; [reflexivity|]. eapply cast_node_shape; eassumption.
+      exists rn, arg, n. split; [reflexivity|]. split; [exact Ere|].
+      split; [|split; [reflexivity|eapply cast_node_shape; eassumption]].
+      destruct a1 as [a1|].
+      + apply ret_ok in Harg as [Harg _]. injection Harg as <-. left. eapply cast_node_shape; eassumption.
+      + destruct (negb (is_ptr (fc_arg c))) eqn:Ep; [apply ret_ok in Harg as [Harg _]; discriminate|].
+        apply rbind_ok in Harg as (a2 & e7 & e8 & Ha2 & Harg & _).
+        destruct a2 as [a2|]; [|apply ret_ok in Harg as [Harg _]; discriminate].
+        destruct (negb (is_ptr (expr_type a2)) && negb (addressable a2)) eqn:Ead;
+          apply ret_ok in Harg as [Harg _]; [discriminate|]. injection Harg as <-.
+        right. split; [now apply negb_false_iff in Ep|]. split; [eapply cast_node_shape; eassumption|].
+        apply andb_false_iff in Ead as [Ead|Ead]; apply negb_false_iff in Ead; auto.
     - left. eapply no_match_warn_shape; eassumption.
   Qed.
 
